@@ -113,6 +113,9 @@ static int os_poll_hook(void);
 #define os_poll_hook() 0
 #endif
 int poll(struct pollfd *f, nfds_t n, int t) { (void) f; (void) n; (void) t; G_os_poll_calls++; return os_poll_hook(); }
+#ifdef OS_MEMBARRIER_HOOK
+static long os_membarrier_hook(long nr, int cmd, int flags);
+#endif
 long syscall(long nr, ...)
 {
 	va_list ap;
@@ -127,9 +130,19 @@ long syscall(long nr, ...)
 		if (G_os_futex_ret < 0) errno = G_os_futex_errno;
 		return G_os_futex_ret;
 	}
+#ifdef OS_MEMBARRIER_HOOK
+	{
+		int cmd = va_arg(ap, int);
+		int fl = va_arg(ap, int);
+		va_end(ap);
+		G_os_membarrier++;
+		return os_membarrier_hook(nr, cmd, fl);
+	}
+#else
 	va_end(ap);
 	G_os_membarrier++;
 	return 0;
+#endif
 }
 
 #ifdef OS_SYSCALL_MACRO
